@@ -539,7 +539,19 @@ impl Analyzable for PolicyConstructor {
 impl Analyzable for PolicyDef {
     fn analyze(&mut self, parent: Option<Rc<Scope>>) -> AnalyzeReport {
         match &mut self.value {
-            PolicyValue::Constructor(x) => x.analyze(parent),
+            PolicyValue::Constructor(x) => {
+                // lowering a policy starts from its hash
+                let missing = if x.find_field("hash").is_none() {
+                    AnalyzeReport::from(Error::invalid_construct(
+                        format!("policy {} has no hash", self.name.value),
+                        &x.span,
+                    ))
+                } else {
+                    AnalyzeReport::default()
+                };
+
+                x.analyze(parent) + missing
+            }
             PolicyValue::Assign(x) => {
                 if hex::decode(&x.value).is_err() {
                     AnalyzeReport::from(Error::invalid_construct(
